@@ -13,14 +13,16 @@ Proof. destruct d as [m i]; destruct m as [| |[[]|] [[]|]]; destruct i as [| |[]
 (* the crash points the translated steps mention *)
 Definition max_cp : nat := fold_left (fun m s => match s with CP n => Nat.max m n | _ => m end) (open_index_steps ++ after_open_steps ++ rebuild_steps) 0.
 
-Lemma run_beyond l : forall cp d, (forall n, In (inr n) l -> n <> cp) -> run cp l d = run 0 l d \/ In (inr 0) l.
+Lemma run_p_beyond l : forall cp dp, (forall n, In (inr n) l -> n <> cp) -> run_p cp l dp = run_p 0 l dp \/ In (inr 0) l.
 Proof.
-  induction l as [|[a|n] r IH]; intros cp d H; cbn [run]; [left; reflexivity| |].
-  - destruct (IH cp (apply a d)) as [E|E]; [intros n Hn; apply H; right; exact Hn|left; exact E|right; right; exact E].
+  induction l as [|[a|n] r IH]; intros cp dp H; cbn [run_p]; [left; reflexivity| |].
+  - destruct (IH cp (apply a dp)) as [E|E]; [intros n Hn; apply H; right; exact Hn|left; exact E|right; right; exact E].
   - destruct (Nat.eqb_spec n cp) as [->|Hn]; [exfalso; apply (H cp); [left; reflexivity|reflexivity]|].
     destruct (Nat.eqb_spec n 0) as [->|H0]; [right; left; reflexivity|].
-    destruct (IH cp d) as [E|E]; [intros m Hm; apply H; right; exact Hm|left; exact E|right; right; exact E].
+    destruct (IH cp dp) as [E|E]; [intros m Hm; apply H; right; exact Hm|left; exact E|right; right; exact E].
 Qed.
+Lemma run_beyond l : forall cp d, (forall n, In (inr n) l -> n <> cp) -> run cp l d = run 0 l d \/ In (inr 0) l.
+Proof. intros cp d H. unfold run. destruct (run_p_beyond l cp (d, nothing_pending) H) as [E|E]; [left; rewrite E; reflexivity|right; exact E]. Qed.
 
 (* one killed start preserves the invariant, for every crash point and every disk state *)
 Definition step_ok (d : disk) : bool := negb (good d) || forallb (fun cp => good (crash_run cp d)) (seq 0 (S (S max_cp))).
